@@ -26,7 +26,7 @@ def prop(pid, rules, explanation, decided, declined, assumptions=()):
 
 
 prop('C09',
-     [('R05', cf.r05_status_ownership), ('R06', cf.r06_round_monotone), ('R02', cf.r02_elect_sites), ('R03', bt.r03_batch_cap)],
+     [('R05', cf.r05_status_ownership), ('R06', cf.r06_round_monotone), ('R02', cf.r02_elect_sites), ('R03', bt.r03_batch_cap), ('R03c', bt.r03c_single_defeat_guard)],
      'Static analysis of /repo source. Status fields are written only inside Candidate; every elect/defeat/'
      'unpend/unelect receiver is drawn (candidate-derivation analysis through the rule-local helpers) from the '
      'status set the transition starts from; unelect only in QPQ on elected candidates; E.round only '
@@ -38,7 +38,7 @@ prop('C09',
       '"elected never exceed seats" for simultaneous quota elections (arithmetic)'])
 
 prop('C01',
-     [('R01', cf.r01_total_sweep), ('R02', cf.r02_elect_sites), ('R03', bt.r03_batch_cap), ('R03b', bt.r03b_defeat_remaining), ('R04', lp.r04_loops), ('R05', cf.r05_status_ownership),
+     [('R01', cf.r01_total_sweep), ('R02', cf.r02_elect_sites), ('R03', bt.r03_batch_cap), ('R03b', bt.r03b_defeat_remaining), ('R03c', bt.r03c_single_defeat_guard), ('R04', lp.r04_loops), ('R05', cf.r05_status_ownership),
       ('R38', rr.r38_first_and_last_action)],
      'Static analysis of /repo source over the count() of every registered rule class (CFG path rules with a small '
      'path-sensitive fact domain, candidate-derivation dataflow): every path to the end of count() completes a total '
